@@ -136,7 +136,7 @@ func c17Swamp(fs *Facts) {
 	f, err := Load(c17SwampPath)
 	if err != nil {
 		fs.Err("%v", err)
-		for _, n := range []string{"destroyDrainsThenCancels", "drainBeforeSwampMu", "closeCancels", "gracefulWaitsOnContext", "ceasePrecedesDestroy"} {
+		for _, n := range []string{"destroyDrainsThenCancels", "drainBeforeSwampMu", "closeCancels", "gracefulWaitsOnContext", "ceasePrecedesDestroy", "autoDestroyRetakesVigil"} {
 			fs.Tri(n, Unknown, c17SwampPath)
 		}
 		return
@@ -317,7 +317,7 @@ func c17Swamp(fs *Facts) {
 	}
 	// auto-destroy sites: every call of a draining method (Destroy and its variants) from outside that family is
 	// immediately preceded by `s.CeaseVigil()`
-	sites, okSites := 0, 0
+	sites, okSites, retakes := 0, 0, 0
 	// (family = the methods that drain at their own top level once helpers are inlined; a method that reaches the
 	//  drain only through an auto-destroy site inside a branch is a caller)
 	family := map[string]bool{}
@@ -344,11 +344,23 @@ func c17Swamp(fs *Facts) {
 					if i > 0 && f.Str(list[i-1]) == "s.CeaseVigil()" {
 						okSites++
 					}
+					if i+1 < len(list) && f.Str(list[i+1]) == "s.BeginVigil()" {
+						retakes++
+					}
 				}
 			}
 			return true
 		})
 	}
+	// the caller's deferred CeaseVigil runs after the site: does the site take the vigil again?
+	rt := Unknown
+	switch {
+	case sites > 0 && retakes == sites:
+		rt = Yes
+	case sites > 0 && retakes == 0:
+		rt = No
+	}
+	fs.Tri("autoDestroyRetakesVigil", rt, c17SwampPath+" ("+strconv.Itoa(retakes)+" of "+strconv.Itoa(sites)+" sites)")
 	cp := Unknown
 	if sites > 0 {
 		cp = TriOf(sites == okSites)
